@@ -116,11 +116,13 @@ def one_case(args):
     data = s.serialize()
     path = os.path.join(wd, "c%d.raw" % case)
     write_file(path, data)
-    mode = rng.choice(["sanity", "all", "all_its", "all_its_stave", "all_its_stave"])
+    # the comparison is a property of every run that collects statistics: check modes, and also views / filtered data to stdout
+    mode = ["sanity", "all", "all_its", "all_its_stave", "all_its_stave", "view rdh", "view its-readout-frames", "writer"][case % 8]
     fmt = rng.choice(["json", "toml"])
     opts = rng.choice([[], [], ["-m"]])
     N = rng.choice([3, 42, 200])
-    base = [path] + obs.MODES[mode] + opts + ["-E", str(N)]
+    margs = obs.MODES[mode] if mode in obs.MODES else (mode.split() if mode != "writer" else ["-f", str(s.links[0].link_id)])
+    base = [path] + margs + opts + ["-E", str(N)]
     desc = "%s input (%d packets, %d links), check %s %s, %s" % (cls, len(s.all_packets()), len(s.links), mode, opts, fmt)
     out["sample"] = desc
     files = {"input.raw": data}
@@ -198,7 +200,7 @@ def one_case(args):
         d2 = t.serialize()
         p2 = os.path.join(wd, "c%d_2.raw" % case)
         write_file(p2, d2)
-        args2 = [p2] + obs.MODES[mode] + opts + ["-E", str(N)]
+        args2 = [p2] + margs + opts + ["-E", str(N)]
         own = obs.run(exe, args2, workdir=wd, stats=fmt, tag="c%de" % case)
         old = obs.run(exe, args2 + ["-i", sp], workdir=wd, tag="c%df" % case)
         os.unlink(p2)
